@@ -18,7 +18,7 @@ EXTENDS Naturals, Integers, Sequences, FiniteSets, TLC
 CONSTANTS MaxTransfer,      \* MAX_TRANSFER_BYTES   message.cpp:32  (4096)
           ReservedIndex,    \* RESERVED_INDEX_SIZE  message.cpp:33  (1024)
           LineBuf,          \* LINE_BUFFER_SIZE     body.cpp:33     (4096)
-          KF                \* subset of {"verbStrlen", "staleHeaderRead", "zeroWrite", "icmpYZ"}
+          KF                \* subset of {"verbStrlen", "staleHeaderRead", "zeroWrite", "icmpYZ", "headChunked"}
 
 CR == 13  LF == 10  SP == 32  HT == 9  COLON == 58  SEMI == 59
 CRLF == <<13, 10>>
@@ -150,7 +150,8 @@ Framing(kind, b, h) ==
      ELSE IF te # {} /\ val(te) # S_CHUNKED THEN [f |-> "bad"]
      ELSE IF co # {} /\ val(co) # S_CLOSE /\ val(co) # S_KA THEN [f |-> "bad"]
      ELSE IF cl # {} /\ (val(cl) = <<>> \/ Len(val(cl)) > 9 \/ \E i \in 1..Len(val(cl)) : ~IsDigit(val(cl)[i])) THEN [f |-> "bad"]
-     ELSE IF kind = "resph" \/ (kind = "req" /\ h.sl.verb = VERB_HEAD) THEN [f |-> "none"]
+     ELSE IF kind = "req" /\ h.sl.verb = VERB_HEAD /\ te # {} THEN [f |-> "bad"]
+     ELSE IF kind = "resph" \/ (kind = "req" /\ h.sl.verb = VERB_HEAD) THEN [f |-> "none"]       \* RFC 7230 3.3.3 (1): whatever the headers say
      ELSE IF te # {} THEN [f |-> "chunked"]
      ELSE IF cl # {} THEN [f |-> "length", n |-> DecVal(val(cl), Len(val(cl)))]
      ELSE IF kind = "resp" /\ ((co # {} /\ val(co) = S_CLOSE) \/ (Sub0(b, h.sl.ver[1], 3) = S_10 /\ co = {})) THEN [f |-> "close"]
@@ -269,12 +270,20 @@ HParse(b, start, ptr, kvs, cap, stale, oob) ==
               p2 == PSkipChar(b, v.ptr, LF)
           IN IF KvAddFails(Len(kvs), start, Len(b), cap) THEN [rc |-> -1, kvs |-> kvs, oob |-> oob \/ atEnd]
              ELSE HParse(b, start, p2, Append(kvs, <<k.off, k.len, v.off, v.len>>), cap, stale, oob \/ atEnd)
-\* std::sort with HeaderAssistant (icmp of the keys): insertion into a sorted sequence (the order of equal keys is unspecified in the code)
-RECURSIVE SortKV(_, _, _)
-InsertKV(b, sorted, kv) ==
-  LET n == Cardinality({i \in 1..Len(sorted) : ICmp(KeyOf(b, sorted[i]), KeyOf(b, kv)) <= 0})
-  IN SubSeq(sorted, 1, n) \o <<kv>> \o SubSeq(sorted, n + 1, Len(sorted))
-SortKV(b, kvs, i) == IF i = 0 THEN <<>> ELSE InsertKV(b, SortKV(b, kvs, i - 1), kvs[i])
+\* kv_add stores each new pair in front of the previous ones (the index grows down from the end of the buffer), so the
+\* array handed to std::sort is in reverse message order.  libstdc++ std::sort of at most 16 elements is __insertion_sort:
+\* an element smaller than the first goes to the front, otherwise it is moved left while it is smaller than its neighbour.
+\* (Above 16 elements introsort partitions first; the result only differs for equal keys or an inconsistent comparison.)
+KLess(b, x, y) == ICmp(KeyOf(b, x), KeyOf(b, y)) < 0
+Reverse(q) == [i \in 1..Len(q) |-> q[Len(q) + 1 - i]]
+InsStep(b, q, i) ==
+  LET val == q[i] IN
+  IF KLess(b, val, q[1]) THEN <<val>> \o SubSeq(q, 1, i - 1) \o SubSeq(q, i + 1, Len(q))
+  ELSE LET j == CHOOSE j \in 1..(i - 1) : ~KLess(b, val, q[j]) /\ \A k \in (j + 1)..(i - 1) : KLess(b, val, q[k])
+       IN SubSeq(q, 1, j) \o <<val>> \o SubSeq(q, j + 1, i - 1) \o SubSeq(q, i + 1, Len(q))
+RECURSIVE InsSort(_, _, _)
+InsSort(b, q, i) == IF i > Len(q) THEN q ELSE InsSort(b, InsStep(b, q, i), i + 1)
+SortKV(b, kvs, n) == InsSort(b, Reverse(kvs), 2)
 \* std::lower_bound(kv_begin, kv_end, key, less): binary search as in libstdc++
 RECURSIVE LowerBound(_, _, _, _, _)
 LowerBound(b, idx, key, first, len) ==
@@ -320,6 +329,9 @@ ReceiveBytes(kind, H, frags, cap, stale) ==
        ELSE LET a == AppendBytes(kind, H, r.data, cap, stale) IN
             [H |-> IF a.rc # 0 /\ r.data = <<>> THEN [a EXCEPT !.rc = -1] ELSE a, frags |-> r.frags, ops |-> 1]
 IsChunked(H) == HValue(H.buf, H.idx, S_TE) = S_CHUNKED
+\* Message::prepare_body_read_stream (message.cpp:231) takes the chunked reader whenever the header says chunked, also for the
+\* response to a HEAD request, which has no body (KF "headChunked"); intended: HEAD responses go through body_size() = 0
+UseChunkedReader(kind, H) == IsChunked(H) /\ (kind # "resph" \/ "headChunked" \in KF)
 \* Message::body_size (Content-Range is outside the model); -1 stands for SIZE_MAX (close-delimited)
 BodySize(kind, H) ==
   LET cl == HFind(H.buf, H.idx, S_CL) IN
@@ -425,11 +437,14 @@ BodyWriteAll(data, sizes, size, cnt) ==
 
 (* ======================================= Part 4: one whole case ======================================= *)
 HeadKinds == {"resp", "resph", "req"}
+\* tail: bytes that follow the message on the same connection (the next message); they are not part of it
+Follow(m) == IF "tail" \in DOMAIN m THEN m.tail ELSE <<>>
 Wire(m) == IF m.kind = "wchunk" THEN ChunkedWriteAll(m.data, m.sizes)
            ELSE IF m.kind = "wlen" THEN BodyWriteAll(m.data, m.sizes, m.dn, 0).wire
-           ELSE m.bytes
+           ELSE m.bytes \o Follow(m)
+Own(m, w) == SubSeq(w, 1, Len(w) - Len(Follow(m)))        \* the message itself
 ReaderKind(m) == IF m.kind = "wchunk" THEN "cbody" ELSE IF m.kind = "wlen" THEN "lbody" ELSE m.kind
-\* what the property demands for this message: [valid, payload, ...]
+\* what the property demands for this message (w: its own bytes, without what follows): [valid, payload, ...]
 Expect(m, w) ==
   IF m.kind \in HeadKinds THEN Reference(m.kind, w)
   ELSE IF m.kind = "wchunk" THEN [valid |-> TRUE, payload |-> m.data]
@@ -466,9 +481,9 @@ RunCase(m, w, cuts, pf, rsq, cap, stale) ==
   IN IF m.kind \in HeadKinds
      THEN LET h == HdrLoop(m.kind, HInit, fr, cap, stale, 0) IN
           IF h.H.rc # 0 THEN [rh |-> h.H.rc, H |-> h.H, ops |-> h.ops]
-          ELSE IF IsChunked(h.H) /\ HeadersSpaceRemain(h.H, cap) < LineBuf THEN [rh |-> -1, H |-> h.H, ops |-> h.ops]
+          ELSE IF UseChunkedReader(m.kind, h.H) /\ HeadersSpaceRemain(h.H, cap) < LineBuf THEN [rh |-> -1, H |-> h.H, ops |-> h.ops]
           ELSE LET partial == Sub0(h.H.buf, h.H.body[1], h.H.body[2])
-                   rd == IF IsChunked(h.H) THEN [t |-> "chunked", st |-> ChunkInit(partial)]
+                   rd == IF UseChunkedReader(m.kind, h.H) THEN [t |-> "chunked", st |-> ChunkInit(partial)]
                          ELSE [t |-> "plain", st |-> BodyInit(partial, BodySize(m.kind, h.H))]
                IN [rh |-> 0, H |-> h.H] @@ ReadLoop(rd, h.frags, rsq, 1, <<>>, <<>>, h.ops, fuel)
      ELSE LET partial == IF pf /\ fr # <<>> THEN Head(fr) ELSE <<>>
